@@ -38,6 +38,7 @@ ASSUMPTIONS = [
     'NaN/inf entries are concrete values at fixed positions of amplitudes / one all-NaN template (configuration)',
     'sampling rate 100 Hz (exact); ALF seconds are k/rate; whitening matrices from a fixed concrete set',
     'params.py is concrete text executed by the real read_python',
+    'forms added after seeding rounds: sub-unit channel pitch; a whitening_mat_inv.npy created by loading must hold the inverse (the replay loads the directory a second time)',
 ]
 STUBS = ['np.load/np.save/np.memmap/Path/glob/shutil.copy (virtual file system; mmap_mode r+ aliases the file)',
          'np.linalg.inv on concrete matrices (real NumPy)', 'mtscomp/tqdm']
